@@ -10,5 +10,12 @@ trap 'rm -rf "$WORK"' EXIT
 mkdir -p "$WORK"
 [ -f "$HERE/bin/crashpoint.so" ] || gcc -O2 -fPIC -shared -o "$HERE/bin/crashpoint.so" "$HERE/mc/crash/crashpoint.c" -ldl
 "$HERE/mc/build.sh" "$WORK" || { echo "check.sh: build failed (internal error, not a verdict)"; exit 2; }
+if [ "$TIER" = thorough ] && { [ "$ID" = C03 ] || [ "$ID" = C20 ]; }; then
+  # auxiliary, non-deciding: free-running -race pass of the scenario bodies (DESIGN 6); its output is a diagnostic in the evidence
+  if RACE=1 "$HERE/mc/build.sh" "$WORK/race" >/dev/null 2>&1; then
+    ( cd "$WORK" && GORACE="log_path=$WORK/racelog halt_on_error=0" timeout 900 "$WORK/race/vcheck" racepass 3 > "$WORK/racepass.out" 2>&1 )
+    export VERIF_RACEPASS_OUT="$WORK/racepass.out" VERIF_RACEPASS_LOGS="$WORK/racelog"
+  fi
+fi
 VERIF_BIN="$HERE/bin" VERIF_KNOWN="$HERE/known_findings.json" VERIF_DIR="${VERIF_OUT:-$HERE}" "$WORK/vcheck" check "$ID" "$TIER" "$@"
 exit $?
